@@ -116,7 +116,7 @@ Definition resync (st : state) : option (nat * facet * facet) :=
   | None => None
   | Some (sid, sf) =>
       match optimal st with
-      | Some (oid, ou, ot) => if Nat.eqb oid sid then Some (oid, ou, ot) else Some (sid, sf, sf)
+      | Some (oid, _, ot) => if Nat.eqb oid sid then Some (sid, sf, ot) else Some (sid, sf, sf)
       | None => Some (sid, sf, sf)
       end
   end.
